@@ -54,6 +54,20 @@ func GetGettyClientHandlerInstance() *gettyClientHandler {
 	return clientHandler
 }
 
+var (
+	sessionOpenListeners   []func()
+	sessionOpenListenersMu sync.RWMutex
+)
+
+// AddSessionOpenListener registers f to run after every new session announced the
+// transaction manager. The resource managers use it to announce their resources
+// again when the connection to the coordinator was lost and re-established.
+func AddSessionOpenListener(f func()) {
+	sessionOpenListenersMu.Lock()
+	defer sessionOpenListenersMu.Unlock()
+	sessionOpenListeners = append(sessionOpenListeners, f)
+}
+
 func (g *gettyClientHandler) OnOpen(session getty.Session) error {
 	log.Infof("Open new getty session ")
 	sessionManager.registerSession(session)
@@ -69,6 +83,12 @@ func (g *gettyClientHandler) OnOpen(session getty.Session) error {
 			log.Errorf("OnOpen error: {%#v}", err.Error())
 			sessionManager.releaseSession(session)
 			return
+		}
+		sessionOpenListenersMu.RLock()
+		listeners := append([]func(){}, sessionOpenListeners...)
+		sessionOpenListenersMu.RUnlock()
+		for _, f := range listeners {
+			f()
 		}
 	}()
 
